@@ -151,7 +151,21 @@ def main():
         lb = {"obligations": [], "discharged": [], "failures": [], "build_ok": True, "driver_ok": True,
               "axioms": {}, "wall_s": 0}
     else:
+        # 0. translator: regenerate the source-derived Lean terms (closed-form formulas) for this property from
+        #    the CURRENT source tree, so the agreement theorems in Props/ are re-checked against what the code
+        #    says now (no-op for properties without generated terms).
+        try:
+            from harness import translate
+            tr = translate.regenerate(args.id, REPO)
+        except ImportError:
+            tr = None
+        except Exception:
+            tr = {"error": traceback.format_exc()[-1500:]}
         lb = leanbuild.ensure(args.id)
+        if tr:
+            lb["translator"] = tr
+            if tr.get("error"):
+                lb["failures"].append("translator could not regenerate the source-derived terms: " + tr["error"][-300:])
         if not lb["driver_ok"]:
             print("infrastructure: Lean driver does not build\n" + lb.get("log", ""))
             return 2
@@ -230,6 +244,7 @@ def main():
             "trusted_base": TRUSTED,
             "axioms_used": sorted({a for l in lb["axioms"].values() for a in l}),
             "proof_failures": lb["failures"],
+            "translator": lb.get("translator"),
             "evaluations": res["evaluations"],
             "distinct_nontrivial": len(res["distinct"]),
             "rule": res["rule"],
